@@ -139,12 +139,16 @@ impl<'input, E> Iterator for Matcher<'input, '_, E> {
             self.text = remaining;
             self.consumed = end_offset;
 
+            // A zero-length match makes no progress: the same match would be found again
+            // forever (an endless stream of empty tokens for a terminal, an endless loop for a
+            // skip pattern), so report the position as invalid instead.
+            if longest_match == 0 {
+                return Some(Err(ParseError::InvalidToken {
+                    location: start_offset,
+                }));
+            }
+
             if self.skip_vec[index] {
-                if longest_match == 0 {
-                    return Some(Err(ParseError::InvalidToken {
-                        location: start_offset,
-                    }));
-                }
                 continue;
             }
 
